@@ -590,7 +590,9 @@ def r15_7(ctx: Ctx) -> RuleResult:
 
     rr = RuleResult("R15.7", "a member of an operation is missing only when it is absent", floor=5)
     fn = ctx.repo.require_func("JSONPatch._op_value")
-    params = [a.arg for a in fn.node.args.args]
+    from .common import own_params
+
+    params = ["self"] + own_params(fn)
     if len(params) < 5:  # noqa: PLR2004
         raise AnalysisError("R15.7: JSONPatch._op_value(self, operation, key, op, i) signature changed")
     model = Model(ctx, "R15.7")
@@ -734,4 +736,13 @@ def rfc6902_known(v: object) -> bool:
     return _foldable(v)
 
 
-RULES = [r15_1, r15_2, r15_3, r15_4, r15_5, r15_6, r15_7, r15_8]
+def r15_9(ctx: Ctx) -> RuleResult:
+    """A patch printed by `asdicts()` and loaded again names the same targets only if reading a pointer's text undoes
+    what printing it did: the reference-token decoder is the inverse of the encoder, `~1` before `~0` (= R4.1, the
+    codec of jsonpath.pointer, for the pointers a patch prints)."""
+    from .c04 import r4_1
+
+    return r4_1(ctx, "R15.9")
+
+
+RULES = [r15_1, r15_2, r15_3, r15_4, r15_5, r15_6, r15_7, r15_8, r15_9]
